@@ -32,6 +32,14 @@
      are stated for receiving calls in which no acknowledgement falls due (`quiet`; C17 decides when one does - then one
      Acknowledgement packet precedes the results, events and states being the same).  Packets are delivered one per input call;
      C15 for sessions carries events, verdict and state to any other fragmentation.
+   - C02_publish_session / C02_play_session (SessionScenario.v): the property's sentence as ONE theorem per direction, from any
+     connected pair with linked chunk layers and window headroom for the command exchange: publish (play) completes on both sides
+     with exactly the listed packets and events; then EVERY sequence of audio/video items (any payload 0..16777215 bytes, any u32
+     timestamps, any droppable flags) is raised on the receiving side exactly once, in order, byte-exact, under the application
+     name and stream key - whatever the acknowledgement windows do during the media phase; then stopping raises exactly the
+     matching finished event at the server.  On the play side the Acknowledgements the client owes after the media phase are
+     read by the server first (C02_server_absorbs_control_packets), as they are on a real connection.
+     C02_publish_media_phase / C02_play_media_phase: the media phase keeps everything the stop needs.
    - C02_publish_completes_windows / C02_play_completes_windows (AckHeadroom.v): the same two workflows with NO per-call premise: if
      each side's announced acknowledgement window exceeds its outstanding count by a few packets' worth (a packet of these
      exchanges is at most 17 * (|key| + 200) + 16 bytes, SerSizeProofs.v), every call returns exactly the listed packets and
@@ -59,7 +67,7 @@
    at the composed level (their per-session behaviour is C09/C10): the composed model
 *)
 From RML Require Import Model.Base Model.Utf8 Model.Float Model.Amf0 Model.Chunk Model.ChunkSer Model.ChunkDe Model.Messages Model.SessionCommon Model.Server Model.Client
-  Model.Interop Proofs.ChunkSerProofs Proofs.InteropProofs Proofs.SessionPartition Proofs.ClientPartition Proofs.InteropPartition Proofs.MetadataProofs Proofs.InteropMetadata Proofs.Transport Proofs.ServerProofs Proofs.SessionFrame Proofs.SessionTrace Proofs.ClientTrace Proofs.SessionTransport Proofs.ProtocolProofs Proofs.ProtocolFlow Proofs.ProtocolStart Proofs.PlayMetadata Proofs.ProtocolFragments Proofs.AckHeadroom Proofs.ConfigProofs Proofs.FloatProofs Proofs.MessageProofs Proofs.ServerProofs.
+  Model.Interop Proofs.ChunkSerProofs Proofs.InteropProofs Proofs.SessionPartition Proofs.ClientPartition Proofs.InteropPartition Proofs.MetadataProofs Proofs.InteropMetadata Proofs.Transport Proofs.ServerProofs Proofs.SessionFrame Proofs.SessionTrace Proofs.ClientTrace Proofs.SessionTransport Proofs.ProtocolProofs Proofs.ProtocolFlow Proofs.ProtocolStart Proofs.PlayMetadata Proofs.ProtocolFragments Proofs.AckHeadroom Proofs.SessionScenario Proofs.ConfigProofs Proofs.FloatProofs Proofs.MessageProofs Proofs.ServerProofs.
 From Coq Require Import String.
 Local Open Scope N_scope.
 
@@ -513,6 +521,95 @@ Theorem C02_client_notes : forall ser ser' b c m ts cclock f,
   (quiet (cl_ack c) b -> cl_ser c2 = cl_ser c).
 Proof. exact client_notes. Qed.
 
+Theorem C02_publish_session : forall c s app key t items k1 k2 k3 k4 k5 k6 k7 km ks1 ks2,
+  Link (cl_ser c) (sv_de s) -> Link (sv_ser s) (cl_de c) -> ser_ok (cl_ser c) -> ser_ok (sv_ser s) ->
+  cl_state c = Connected -> cl_next_tr c < 4294967296 -> sv_next_stream s < 4294967296 ->
+  sv_connected s = true -> sv_app s = Some app -> utf8_valid key = true -> lenN key <= 65000 ->
+  k1 < 4294967296 -> k2 < 4294967296 -> k3 < 4294967296 -> k5 < 4294967296 -> ks1 < 4294967296 ->
+  (forall w, ack_window (sv_ack s) = Some w -> ack_since (sv_ack s) + 2 * (17 * (lenN key + 200) + 16) < w) ->
+  (forall w, ack_window (cl_ack c) = Some w -> ack_since (cl_ack c) + 3 * (17 * (lenN key + 200) + 16) < w) ->
+  Forall item_wf items ->
+  exists c1 b1 s1 b2 c2 b3 s2 s3 b4 b5 c3 c4 c5 s4 c6 b6 s5 r,
+    (* publish completes on both sides *)
+    client_request_publishing c key t k1 = (c1, COk [CPacket b1 false]) /\
+    server_handle_input s b1 k2 = (s1, ROk [SPacket b2 false]) /\
+    client_handle_input c1 b2 k3 = (c2, COk [CPacket b3 false]) /\
+    server_handle_input s1 b3 k4 = (s2, ROk [SEvent (EvPublishRequested (sv_next_req s) app key (mode_of_type t))]) /\
+    server_accept s2 (sv_next_req s) k5 = (s3, ROk [SPacket b4 false; SPacket b5 false]) /\
+    client_handle_input c2 b4 k6 = (c3, COk []) /\
+    client_handle_input c3 b5 k7 = (c4, COk [CEvent CPublishAccepted]) /\
+    (* every item is raised exactly once, in order, byte-exact, under the application name and the stream key *)
+    publish_run c4 s3 items km =
+      Some (c5, s4, map (fun i => match i with Item video data ts _ => media_event video app key data ts end) items) /\
+    (* stopping raises the matching finished event *)
+    client_stop_publishing c5 ks1 = (c6, COk [CPacket b6 false]) /\ cl_state c6 = Connected /\
+    server_handle_input s4 b6 ks2 = (s5, ROk r) /\ events r = [EvPublishFinished app key].
+Proof. exact publish_session. Qed.
+
+Theorem C02_play_session : forall c s app key items k1 k2 k3 k4 k5 k6 t1 t2 t3 t4 t5 km kd ks1 ks2,
+  Link (cl_ser c) (sv_de s) -> Link (sv_ser s) (cl_de c) -> ser_ok (cl_ser c) -> ser_ok (sv_ser s) ->
+  cl_state c = Connected -> cl_next_tr c < 4294967296 -> sv_next_stream s < 4294967296 -> cc_buffer (cl_cfg c) < 4294967296 ->
+  sv_connected s = true -> sv_app s = Some app -> utf8_valid key = true -> lenN key <= 65000 ->
+  k1 < 4294967296 -> k2 < 4294967296 -> k3 < 4294967296 -> k6 < 4294967296 -> km < 4294967296 -> ks1 < 4294967296 ->
+  (forall w, ack_window (sv_ack s) = Some w -> ack_since (sv_ack s) + 3 * (17 * (lenN key + 200) + 16) < w) ->
+  (forall w, ack_window (cl_ack c) = Some w -> ack_since (cl_ack c) + 6 * (17 * (lenN key + 200) + 16) < w) ->
+  Forall item_wf items ->
+  exists c1 b1 s1 b2 c2 b3 b4 s2 s3 s4 p1 p2 p3 p4 p5 c3 c4 c5 c6 c7 s5 c8 out s6 c9 b9 s7 r,
+    (* play completes on both sides *)
+    client_request_playback c key k1 = (c1, COk [CPacket b1 false]) /\
+    server_handle_input s b1 k2 = (s1, ROk [SPacket b2 false]) /\
+    client_handle_input c1 b2 k3 = (c2, COk [CPacket b3 false; CPacket b4 false]) /\
+    server_handle_input s1 b3 k4 = (s2, ROk []) /\
+    server_handle_input s2 b4 k5 = (s3, ROk [SEvent (EvPlayRequested (sv_next_req s) app key LiveOrRecorded None false (sv_next_stream s))]) /\
+    server_accept s3 (sv_next_req s) k6 = (s4, ROk [SPacket p1 false; SPacket p2 false; SPacket p3 false; SPacket p4 false; SPacket p5 false]) /\
+    client_handle_input c2 p1 t1 = (c3, COk [CEvent (CUnhandleableStatus (str "NetStream.Play.Reset"))]) /\
+    client_handle_input c3 p2 t2 = (c4, COk []) /\
+    client_handle_input c4 p3 t3 = (c5, COk [CEvent CPlaybackAccepted]) /\
+    client_handle_input c5 p4 t4 = (c6, COk []) /\
+    client_handle_input c6 p5 t5 = (c7, COk []) /\
+    (* every item the server sends is raised by the client exactly once, in order, byte-exact; `out` = what the client wrote meanwhile
+       (Acknowledgements, whenever its counter reached the server's window) *)
+    play_run2 s4 c7 (sv_next_stream s) items km =
+      Some (s5, c8, map (fun i => match i with Item video data ts _ => cmedia_event video data ts end) items, out) /\
+    (* the server reads those, then the stop: exactly the matching finished event *)
+    sdeliver s5 out kd = Some s6 /\
+    client_stop_playback c8 ks1 = (c9, COk [CPacket b9 false]) /\ cl_state c9 = Connected /\
+    server_handle_input s6 b9 ks2 = (s7, ROk r) /\ events r = [EvPlayFinished app key].
+Proof. exact play_session. Qed.
+
+Theorem C02_play_media_phase : forall items,
+forall s c sid clock,
+  Link (sv_ser s) (cl_de c) -> ser_ok (cl_ser c) -> ser_ok (sv_ser s) -> playing_on c sid -> sid < 4294967296 -> clock < 4294967296 ->
+  Forall item_wf items ->
+  exists s' c' out,
+    play_run2 s c sid items clock =
+      Some (s', c', map (fun i => match i with Item video data ts _ => cmedia_event video data ts end) items, out) /\
+    Link (sv_ser s') (cl_de c') /\ ser_ok (cl_ser c') /\ ser_ok (sv_ser s') /\ playing_on c' sid /\ cl_state c' = cl_state c /\
+    sends (cl_ser c) out (cl_ser c') /\ same_core s s' /\ sv_de s' = sv_de s.
+Proof. exact play_run_keeps. Qed.
+
+Theorem C02_publish_media_phase : forall items,
+forall c s clock sid app key,
+  Link (cl_ser c) (sv_de s) -> ser_ok (cl_ser c) -> ser_ok (sv_ser s) -> publishing_stream c = Ok sid -> sid < 4294967296 ->
+  sv_connected s = true -> publishing_key s sid = Some (app, key) -> Forall item_wf items ->
+  exists c' s', publish_run c s items clock =
+    Some (c', s', map (fun i => match i with Item video data ts _ => media_event video app key data ts end) items) /\
+    Link (cl_ser c') (sv_de s') /\ ser_ok (cl_ser c') /\ ser_ok (sv_ser s') /\ publishing_stream c' = Ok sid /\
+    sv_connected s' = true /\ publishing_key s' sid = Some (app, key).
+Proof. exact publish_run_keeps. Qed.
+
+Theorem C02_server_absorbs_control_packets : forall ser bs ser',
+sends ser bs ser' -> forall s clock,
+  Link ser (sv_de s) -> ser_ok (sv_ser s) ->
+  exists s', sdeliver s bs clock = Some s' /\ same_core s s' /\ Link ser' (sv_de s') /\ ser_ok (sv_ser s').
+Proof. exact server_absorbs. Qed.
+
+Theorem C02_server_notes : forall ser ser' b s m ts sclock f,
+  noted m -> Link ser (sv_de s) -> ser_ok (sv_ser s) -> ts < 4294967296 ->
+  send_message ser m ts 0 f false = Ok (b, ser') ->
+  exists s2 r, server_handle_input s b sclock = (s2, ROk r) /\ same_core s s2 /\ Link ser' (sv_de s2) /\ ser_ok (sv_ser s2).
+Proof. exact server_notes. Qed.
+
 Example C02_scenario_publish :
   filter is_media_or_lifecycle (server_events_of (ex_run ex_publish_ops)) =
   [ EvConnectionRequested 0 (str "live");
@@ -558,6 +655,12 @@ Print Assumptions C02_connect_ready.
 Print Assumptions C02_server_receives_chunk_size.
 Print Assumptions C02_client_receives_chunk_size.
 Print Assumptions C02_connect_completes_decided.
+Print Assumptions C02_publish_session.
+Print Assumptions C02_play_session.
+Print Assumptions C02_play_media_phase.
+Print Assumptions C02_publish_media_phase.
+Print Assumptions C02_server_absorbs_control_packets.
+Print Assumptions C02_server_notes.
 Print Assumptions C02_publish_completes_windows.
 Print Assumptions C02_play_completes_windows.
 Print Assumptions C02_quiet_of_headroom.
